@@ -193,9 +193,11 @@ func runSeq(idx int, seed int64, nops int, size uint64, prof string, unstable bo
 		script = limitsScript(fi.Wtmax, fi.Maxfs, pc.Namemax, g.rng)
 	case "paging":
 		script = pagingScript(g.rng, idx)
+	case "inodefull":
+		script = inodeFullScript(uint64(r.srv.VerifState().Super.NInode()), g.rng, idx > 0)
 	}
 	if script != nil {
-		r.noCache = prof == "paging"
+		r.noCache = prof == "paging" || prof == "inodefull"
 		for _, o := range script {
 			fmt.Fprintln(of, o.Sym())
 			r.Step(o)
